@@ -107,7 +107,7 @@ func (m *refLRU) State() (keys, ids []uint64, dirty []bool, ml, ll int) {
 }
 
 func checkC15(c *core.Ctx) []core.Floor {
-	c.Rule = "operation sequences over {store clean page, store dirty page, lookup, mark dirty, mark clean, store the resident page object itself again (as a flush does)} x keys, run on the real LRUCache holding real nodes and on a 50-line reference model; after EVERY step the return value and the resident entries (recency order, stored page identity, dirty flags, map and list sizes) must be equal. Exhaustive: all sequences of the stated depth over 3-4 keys at capacities 1-3; random: long sequences at capacities 4-64 with dirty ratios 0-100%, and sequences of 1500-4000 steps on a cache of 4096 / 4097 / 5000 / 8192 / 10000 (the default) pages that was filled first (state compared every 250 steps, return values at every step). Distinct = sequence x capacity; non-trivial = the sequence caused an eviction or a refusal in the model."
+	c.Rule = "operation sequences over {store clean page, store dirty page, lookup, mark dirty, mark clean, store the resident page object itself again (as a flush does)} x keys, run on the real LRUCache holding real nodes and on a 50-line reference model; after EVERY step the return value and the resident entries (recency order, stored page identity, dirty flags, map and list sizes) must be equal. Exhaustive: all sequences of the stated depth over 3-4 keys at capacities 1-3; random: long sequences at capacities 4-64 with dirty ratios 0-100%, and sequences of 1500-4000 steps on a cache of 4096 / 4097 / 5000 / 8192 / 10000 (the default) pages that was filled first (state compared every 250 steps, return values at every step); sequences at capacities 33-2000 on a cache filled with 90-100% dirty pages, so that the oldest clean page lies behind dozens of dirty ones. Distinct = sequence x capacity; non-trivial = the sequence caused an eviction or a refusal in the model."
 	c.Assume = []string{"marking a resident page dirty/clean happens through the node pointer, as the B+ tree code does (no recency change)"}
 	drv := mustDriver(c, false)
 	type batch struct {
@@ -150,6 +150,21 @@ func checkC15(c *core.Ctx) []core.Floor {
 	for i := 0; i < nLarge; i++ {
 		capn := []int{10000, 4096, 4097, 10000, 8192, 5000}[i%6]
 		largeSpecs = append(largeSpecs, lruseq.Spec{Cap: capn, Keys: capn + r.Range(100, capn/2), Prefill: capn - r.Intn(3), Steps: r.Range(1500, 4000), Every: 250, Seed: r.U64(), Dirty: []int{0, 10, 30, 50, 90}[r.Intn(5)]})
+	}
+	// mid-range capacities with long runs of dirty pages at the cold end: the
+	// cache is filled with (almost) only dirty pages, later steps clean a few
+	// of them, so that the oldest clean page lies behind dozens of dirty ones
+	nMid := 60
+	if !core.Quick(c) {
+		nMid = 3000
+	}
+	for i := 0; i < nMid; i++ {
+		capn := []int{33, 34, 35, 40, 48, 64, 65, 100, 200, 500, 1000, 2000}[i%12]
+		every := 1
+		if capn > 100 {
+			every = 25
+		}
+		largeSpecs = append(largeSpecs, lruseq.Spec{Cap: capn, Keys: capn + r.Range(5, capn), Prefill: capn, Steps: r.Range(400, 2000), Every: every, Seed: r.U64(), Dirty: []int{100, 97, 90}[r.Intn(3)]})
 	}
 	// random specs are grouped so that one driver process runs many
 	type job struct {
@@ -220,6 +235,8 @@ func checkC15(c *core.Ctx) []core.Floor {
 			c.Count("lookup_misses", st.misses)
 			if sp.Depth > 0 {
 				c.Count(fmt.Sprintf("exhaustive_depth%d_keys%d_cap%d_sequences", sp.Depth, sp.Keys, sp.Cap), int64(sp.Hi-sp.Lo))
+			} else if sp.Prefill > 0 && sp.Cap < 4096 {
+				c.Count("sequences_on_a_cache_filled_with_dirty_pages_capacity_33_to_2000", 1)
 			} else if sp.Prefill > 0 {
 				c.Count("sequences_on_a_filled_cache_of_thousands_of_pages", 1)
 				if sp.Cap == 10000 {
